@@ -298,7 +298,7 @@ StoreRel(e, t, u) ==
   /\ e.ret \in {0, -1}
   /\ IF e.e = "dist_add" /\ e.commit = 0 /\ (e.addflags % 4) # 0 /\ e.addflags < 4
      THEN GroupingRel(t, u)
-     ELSE [u EXCEPT !.xd = <<>>] = [t EXCEPT !.xd = <<>>]
+     ELSE [u EXCEPT !.xd = <<>>, !.stores = <<>>] = [t EXCEPT !.xd = <<>>, !.stores = <<>>]
 
 ModifyingEvents == {"restrict", "insert_misc", "group", "group_obj", "group_free", "allow", "add_info", "set_subtype", "refresh",
                     "dist_add", "dist_remove", "memattr", "cpukind"}
